@@ -15,8 +15,12 @@ GOENV.pop("GOSUMDB", None)
 
 
 def sh(cmd, cwd=None, env=None, timeout=None, stdin=None, stdout=subprocess.PIPE):
-    p = subprocess.run(cmd, cwd=cwd, env=env, timeout=timeout, stdin=stdin, stdout=stdout,
-                       stderr=subprocess.STDOUT, text=True)
+    try:
+        p = subprocess.run(cmd, cwd=cwd, env=env, timeout=timeout, stdin=stdin, stdout=stdout,
+                           stderr=subprocess.STDOUT, text=True)
+    except subprocess.TimeoutExpired as e:
+        out = e.stdout if isinstance(e.stdout, str) else (e.stdout or b"").decode("utf-8", "replace")
+        return 124, (out or "") + f"\n[timeout after {timeout}s]"
     return p.returncode, (p.stdout or "")
 
 
